@@ -152,9 +152,14 @@ func changeField(r *wm.Rec, i int, spec wm.FieldSpec) bool {
 	case wm.HIPHdr:
 		f.U ^= 1
 	case wm.APLs:
-		if len(f.APL) > 0 {
+		switch {
+		case len(f.APL) > 0 && f.APL[0].Family == 1 && len(f.APL[0].Afd) > 0:
+			// the IPv4-mapped IPv6 twin of an IPv4 item: different family, prefix and octets on the wire
+			it := f.APL[0]
+			f.APL[0] = wm.APLItem{Family: 2, Prefix: it.Prefix + 96, Neg: it.Neg, Afd: append([]byte{0, 0, 0, 0, 0, 0, 0, 0, 0, 0, 0xff, 0xff}, it.Afd...)}
+		case len(f.APL) > 0:
 			f.APL[0].Neg = !f.APL[0].Neg
-		} else {
+		default:
 			f.APL = []wm.APLItem{{Family: 1, Prefix: 8, Afd: []byte{10}}}
 		}
 	case wm.Params:
@@ -180,6 +185,21 @@ func changeField(r *wm.Rec, i int, spec wm.FieldSpec) bool {
 	return true
 }
 
+// fromOneMessage returns the three records as they come out of ONE compressed message (RDATA names
+// compressed differently in the three places, Rdlength = compressed length)
+func fromOneMessage(recs []wm.Rec) []dns.RR {
+	m := wm.Msg{ID: 1, Flags: wm.FlagQR, An: recs}
+	w, err := wm.EncodeCompressed(m, true)
+	if err != nil {
+		return nil
+	}
+	var u dns.Msg
+	if u.Unpack(w) != nil || len(u.Answer) != len(recs) {
+		return nil
+	}
+	return u.Answer
+}
+
 func checkPair(c pairCase) error {
 	recs := []wm.Rec{c.A, c.B, c.C}
 	var rrs []dns.RR
@@ -191,6 +211,19 @@ func checkPair(c pairCase) error {
 		}
 		rrs = append(rrs, rr)
 		keys = append(keys, key(r))
+	}
+	// the same three records decoded from one compressed message must relate in the same way
+	if mrrs := fromOneMessage(recs); mrrs != nil {
+		for i := range mrrs {
+			for j := range mrrs {
+				if got, want := dns.IsDuplicate(mrrs[i], mrrs[j]), keys[i] == keys[j]; got != want {
+					return pbt.Errf("records decoded from one compressed message: IsDuplicate=%v, reference says %v (%s):\n  %s\n  %s", got, want, c.How, mrrs[i], mrrs[j])
+				}
+				if got, want := dns.IsDuplicate(mrrs[i], rrs[j]), keys[i] == keys[j]; got != want {
+					return pbt.Errf("a record from a compressed message vs. one decoded on its own: IsDuplicate=%v, reference says %v (%s):\n  %s\n  %s", got, want, c.How, mrrs[i], rrs[j])
+				}
+			}
+		}
 	}
 	wa, _ := wm.EncodeRR(c.A)
 	wb, _ := wm.EncodeRR(c.B)
